@@ -11,6 +11,10 @@ The spec column is computed from the properties' own wording, not from the handl
 * C19: a ghost lock per key driven only by the request/response history (set by a successful
   prewrite, cleared by commit/rollback/resolve/expiry of *that* transaction), the TTL rule and the
   min-commit rule in unbounded arithmetic.
+Domain: the properties (and the theorems, `Req.WF`) speak of protocol requests, whose commit ts is
+above their start ts.  The generator also sends a few commits with commit ts ≤ start ts; the model
+follows the code on them, but the keys they name leave the domain (`St.outside`) and the spec
+column claims nothing about those keys afterwards.  Nothing is relaxed for any other key.
 -/
 import Driver.Lib
 import NoKVModel.Perc.Model
@@ -29,6 +33,10 @@ structure St where
   s : Store := Store.empty
   keys : List Bytes := []          -- ascending, distinct: every key a request has named
   ghost : List (Bytes × Ghost) := []
+  /-- keys on which a request outside the properties' domain was sent (a commit / resolve-commit
+  whose commit ts is not above its start ts, `Req.WF` of the theorems): from then on the three
+  properties claim nothing about these keys, the spec column answers `*` for them. -/
+  outside : List Bytes := []
 
 def insKey (k : Bytes) : List Bytes → List Bytes
   | [] => [k]
@@ -173,6 +181,12 @@ def setCfg (st : St) (kv : String) : Option St :=
 
 def wants (st : St) (p : String) : Bool := st.prop == "all" || st.prop == p
 
+def isOutside (st : St) (k : Bytes) : Bool := st.outside.contains k
+
+/-- a commit timestamp at or below the start timestamp: not a request of the protocol -/
+def markOutside (st : St) (start ct : Nat) (keys : List Bytes) : St :=
+  if ct ≤ start then { st with outside := keys.filter (· ≠ []) ++ st.outside } else st
+
 /-! ### dump -/
 
 def dumpStr (st : St) : String :=
@@ -220,7 +234,7 @@ def step (st : St) (toks : List String) : St × String :=
     | some start, some primary, some ttl, some minc, some ms =>
       let h : PwHdr := ⟨start, primary, ttl, minc⟩
       -- C18: a key of this request carries a rollback record of this transaction ⇒ it must not be locked again
-      let rolledBack := ms.any fun m => m.key ≠ [] && m.op ≠ .other &&
+      let rolledBack := ms.any fun m => m.key ≠ [] && m.op ≠ .other && !isOutside st m.key &&
         (st.s m.key).writes.any fun w => w.start = start && w.kind == .rollback
       let r := prewrite st.c h st.s ms
       let st := addKeys { st with s := r.1 } (ms.map (·.key))
@@ -232,15 +246,18 @@ def step (st : St) (toks : List String) : St × String :=
     match natOf? start, natOf? ct, parseKeys? keys with
     | some start, some ct, some ks =>
       -- C18: a key of this request carries a rollback record of this transaction ⇒ must fail
-      let rolledBack := ks.any fun k => (st.s k).writes.any fun w => w.start = start && w.kind == .rollback
+      let rolledBack := ks.any fun k => !isOutside st k &&
+        (st.s k).writes.any fun w => w.start = start && w.kind == .rollback
       -- C19: the ghost lock's minimum commit timestamp is above the commit timestamp ⇒ must fail
-      let belowMin := ks.any fun k => match ghostOf st k with
+      let belowMin := ks.any fun k => !isOutside st k && match ghostOf st k with
         | .held s _ m => s = start && ct < m
         | _ => false
+      let malformed := decide (ct ≤ start)
+      let st := markOutside st start ct ks
       let r := commit st.c start ct st.s ks
       let st := addKeys { st with s := r.1 } ks
       let st := ghostAfterEnd st start ks r.2.isNone true
-      let spec := if (wants st "C18" && rolledBack) || (wants st "C19" && belowMin) then "err:*" else "*"
+      let spec := if !malformed && ((wants st "C18" && rolledBack) || (wants st "C19" && belowMin)) then "err:*" else "*"
       (st, optErrStr r.2 ++ "\t" ++ spec)
     | _, _, _ => (st, "bad-op")
   | ["rb", start, keys] =>
@@ -254,6 +271,7 @@ def step (st : St) (toks : List String) : St × String :=
   | ["rl", start, ct, keys] =>
     match natOf? start, natOf? ct, parseKeys? keys with
     | some start, some ct, some ks =>
+      let st := if ct = 0 then st else markOutside st start ct ks
       let r := resolveLock st.c start ct st.s ks 0
       let st := addKeys { st with s := r.1 } ks
       let st := ghostAfterEnd st start ks r.2.2.isNone false
@@ -271,7 +289,7 @@ def step (st : St) (toks : List String) : St × String :=
       -- C19: the transaction may be rolled back only when ttl ≠ 0 and current ≥ start + ttl (no wrap)
       let spec := match g with
         | .held s ttl _ =>
-          if s = lockTs && wants st "C19" && !(ttl ≠ 0 && s + ttl ≤ cur) then s!"cs:-:{ttl}:0:0|cs:-:{ttl}:0:3" else "*"
+          if s = lockTs && wants st "C19" && !isOutside st primary && !(ttl ≠ 0 && s + ttl ≤ cur) then s!"cs:-:{ttl}:0:0|cs:-:{ttl}:0:3" else "*"
         | _ => "*"
       let st := match g with
         | .held s ttl m =>
@@ -288,14 +306,16 @@ def step (st : St) (toks : List String) : St × String :=
     match bytesOf? key, natOf? ts with
     | some k, some t =>
       if k = [] then (st, "apply-error\t*") else
-      let spec := if wants st "C17" then readStr k (specGet (st.s k) t) else "*"
+      let spec := if wants st "C17" && !isOutside st k then readStr k (specGet (st.s k) t) else "*"
       (st, readStr k (get st.c st.s k t) ++ "\t" ++ spec)
     | _, _ => (st, "bad-op")
   | ["scan", startKey, incl, limit, ver] =>
     match bytesOf? startKey, natOf? incl, natOf? limit, natOf? ver with
     | some sk, some incl, some limit, some ver =>
       let r := scan st.c st.s st.keys sk (incl ≠ 0) limit ver
-      let spec := if wants st "C17" then
+      let tainted := st.keys.any fun k => isOutside st k &&
+        (sk == [] || Bytes.lt sk k || (incl ≠ 0 && k == sk))
+      let spec := if wants st "C17" && !tainted then
           scanStr (specScan st.s sk (incl ≠ 0) (if ver = 0 then two64 - 1 else ver) (if limit = 0 then 1 else limit) st.keys)
         else "*"
       (st, scanStr r ++ "\t" ++ spec)
@@ -306,7 +326,7 @@ def step (st : St) (toks : List String) : St × String :=
       let out := match (st.s k).lock with
         | some l => s!"lock({lockFields l})"
         | none => "none"
-      let spec := if !wants st "C19" then "*" else match ghostOf st k with
+      let spec := if !wants st "C19" || isOutside st k then "*" else match ghostOf st k with
         | .held s _ _ => s!"lock({s},*"
         | .free => "none"
         | .unknown => "*"
@@ -315,7 +335,7 @@ def step (st : St) (toks : List String) : St × String :=
   | ["dump"] => (st, dumpStr st ++ "\t*")
   | ["inv"] =>
     let n := (st.keys.map fun k => overlapsOfKey (st.s k).writes).foldl (· + ·) 0
-    (st, s!"overlap={n}" ++ "\t" ++ (if wants st "C18" then "overlap=0" else "*"))
+    (st, s!"overlap={n}" ++ "\t" ++ (if wants st "C18" && st.outside.isEmpty then "overlap=0" else "*"))
   | _ => (st, "bad-op")
 
 def main : IO Unit := Driver.loop ({} : St) step
